@@ -119,4 +119,107 @@ private def demo7 : List Op :=
 example : ((reach false none demo7).ds.objs.filter (fun p => p.1.1 == K.content 7)).length = 1 := by decide
 example : (runFs (FsBackend.init false none false) demo7).2.drop 5 = [.val (some (some 7)), .val (some (some 8))] := by decide
 
+/-! ### partitions: several objects per result
+
+`PicklePartitionStrategy.store` (no key override) sends every value of the partition through the value codec — the same
+`codecStore` as a plain result, so each lands under its own content key — and then stores the index document, again
+content-addressed. At the level of the object store a partition is therefore a *list of byte strings written one after
+the other* (the values in key order, then the index). The statements of this file hold along such a list as well. -/
+
+/-- the object-store effect of storing a partition: the byte strings of its values, then of its index -/
+def storeBlobs (d : DS) : List Bytes → DS
+  | [] => d
+  | b :: bs => storeBlobs (FsBackend.codecStore d none (some b)).1 bs
+
+theorem existsNV_content_after (d : DS) (h : DSWF d) (b : Bytes) :
+    (FsBackend.codecStore d none (some b)).1.existsNV (.content b) = true := by
+  unfold FsBackend.codecStore
+  by_cases hex : d.existsNV (.content b) = true
+  · simp only [hex, if_true]
+    cases hg : d.getVersioned (.content b) <;> exact hex
+  · simp only [hex]
+    show DS.existsNV (d.output (.content b) (.blob b)).1 (.content b) = true
+    unfold DS.existsNV
+    rw [DS.alookup_links_output, if_pos rfl]
+    simp only [DS.alookup_objs_output, if_true, Option.isSome_some]
+
+/-- well-formedness (content keys hold their own bytes, one object per content key) is kept, and no object that was
+    there is modified or removed -/
+theorem storeBlobs_wf : ∀ (bs : List Bytes) (d : DS), DSWF d → (∀ b ∈ bs, b + 1 < 1000000) →
+    DSWF (storeBlobs d bs) ∧ ObjsExt d (storeBlobs d bs)
+  | [], d, h, _ => ⟨h, ObjsExt.refl d⟩
+  | b :: bs, d, h, hb => by
+    obtain ⟨hstep, _, _⟩ := FsBackend.codecStore_post h none (some b)
+      (by intro b' e; cases e; exact hb b List.mem_cons_self)
+    obtain ⟨h2, e2⟩ := storeBlobs_wf bs _ hstep.wf (fun x hx => hb x (List.mem_cons_of_mem _ hx))
+    exact ⟨h2, hstep.ext.trans e2⟩
+
+/-- a byte string that is stored stays stored while further byte strings are written -/
+theorem existsNV_content_mono (d : DS) (h : DSWF d) (b c : Bytes) (hc : c + 1 < 1000000)
+    (hex : d.existsNV (.content b) = true) : (FsBackend.codecStore d none (some c)).1.existsNV (.content b) = true := by
+  by_cases hbc : b = c
+  · subst hbc; exact existsNV_content_after d h b
+  · unfold FsBackend.codecStore
+    by_cases hexc : d.existsNV (.content c) = true
+    · simp only [hexc, if_true]
+      cases hg : d.getVersioned (.content c) <;> exact hex
+    · simp only [hexc]
+      show DS.existsNV (d.output (.content c) (.blob c)).1 (.content b) = true
+      unfold DS.existsNV at hex ⊢
+      have hne : (K.content c) ≠ K.content b := by intro e; cases e; exact hbc rfl
+      rw [DS.alookup_links_output, if_neg (Ne.symm hne)]
+      cases hl : alookup d.links (.content b) with
+      | none => simp [hl] at hex
+      | some v =>
+        simp only [hl] at hex ⊢
+        rw [DS.alookup_objs_output]
+        split
+        · rfl
+        · exact hex
+
+theorem storeBlobs_exists : ∀ (bs : List Bytes) (d : DS), DSWF d → (∀ b ∈ bs, b + 1 < 1000000) →
+    (∀ b, d.existsNV (.content b) = true → (storeBlobs d bs).existsNV (.content b) = true) ∧
+    (∀ b ∈ bs, (storeBlobs d bs).existsNV (.content b) = true)
+  | [], d, _, _ => ⟨fun _ h => h, fun _ h => by cases h⟩
+  | c :: bs, d, h, hb => by
+    have hc := hb c List.mem_cons_self
+    obtain ⟨hstep, _, _⟩ := FsBackend.codecStore_post h none (some c) (by intro b' e; cases e; exact hc)
+    obtain ⟨ih1, ih2⟩ := storeBlobs_exists bs _ hstep.wf (fun x hx => hb x (List.mem_cons_of_mem _ hx))
+    refine ⟨fun b hex => ih1 b (existsNV_content_mono d h b c hc hex), ?_⟩
+    intro b hbm
+    rcases List.mem_cons.mp hbm with rfl | hbm
+    · exact ih1 _ (existsNV_content_after d h _)
+    · exact ih2 b hbm
+
+/-- storing byte strings that are all stored already writes nothing at all -/
+theorem storeBlobs_existing : ∀ (bs : List Bytes) (d : DS), (∀ b ∈ bs, d.existsNV (.content b) = true) → storeBlobs d bs = d
+  | [], _, _ => rfl
+  | b :: bs, d, h => by
+    simp only [storeBlobs]
+    rw [FsBackend.codecStore_existing d b (h b List.mem_cons_self)]
+    exact storeBlobs_existing bs d (fun x hx => h x (List.mem_cons_of_mem _ hx))
+
+/-- **equal partitions share all their objects**: storing the same values and index a second time (by whatever
+    function) creates no object -/
+theorem partition_stored_twice_shares (d : DS) (h : DSWF d) (bs : List Bytes) (hb : ∀ b ∈ bs, b + 1 < 1000000) :
+    storeBlobs (storeBlobs d bs) bs = storeBlobs d bs :=
+  storeBlobs_existing bs _ (storeBlobs_exists bs d h hb).2
+
+/-- the values of a partition share objects with plain results of the same bytes: after a history that memoized the
+    bytes `b`, a partition containing `b` writes no object for it -/
+theorem partition_value_shared_with_plain_result (d : DS) (b : Bytes) (hex : d.existsNV (.content b) = true) :
+    storeBlobs d [b] = d := storeBlobs_existing [b] d (by intro x hx; simp at hx; subst hx; exact hex)
+
+/-- along a history followed by a partition write, content keys still hold their own bytes and have one object each -/
+theorem partition_keeps_integrity (separate : Bool) (budget : Option Nat) (ops : List Op)
+    (hadm : AdmissibleFs (FsBackend.init separate budget false) ops) (bs : List Bytes) (hb : ∀ b ∈ bs, b + 1 < 1000000) :
+    let d := storeBlobs (reach separate budget ops).ds bs
+    (∀ h v c, alookup d.objs (.content h, v) = some c → c = .blob h) ∧
+    (∀ h, (d.objs.filter (fun p => p.1.1 == K.content h)).length ≤ 1) := by
+  have hw := (storeBlobs_wf bs _ (reach_wf separate budget ops hadm).ds hb).1
+  exact ⟨hw.contentOk, hw.content_unique⟩
+
+example : ((storeBlobs (storeBlobs (reach false none demo7).ds [7, 21, 22]) [21, 7, 23]).objs.filter
+    (fun p => !p.1.1.isMetaArea)).length = 6 := by decide
+
 end Memento.Store
